@@ -4,7 +4,7 @@ C06 donor entries, C08 memory safety).
   mrouter_step   body of `for (auto i : grid.nodes_indices())`, outlined; the two inner loops
                  (neighbours, weight normalisation) are unwound to n_neighbors_max.
   mrouter        the sweep with the body replaced by a call, closed by a loop contract."""
-from fv.extract import Unit, R, V, RB
+from fv.extract import Unit, R, V, RB, ALIAS
 from fv.runner import Group
 from spec.graphmodel import (is_masked, is_base_level, GRAPH_VOCAB, NS_DEFS, ghost_decls, neighbors_contract, conj, disj, NMAX_NODES)
 
@@ -38,8 +38,9 @@ STEP_RULES = [
       "slope = FSL_DIV(elevation.flat(i) - elevation.flat(n.idx), n.distance);", 1),
     V(r"\bcontinue;", "return; /* `continue` of the outlined loop body */"),
     # same stated row-capacity precondition instance as in the single-direction router
-    R(r"donors\(n\.idx, donors_count\(n\.idx\)\+\+\) = i;",
-      "FSL_PRE(donors_count(n.idx) < DON_W); donors(n.idx, donors_count(n.idx)++) = i;", 1),
+    # reference aliases into the donor tables (`auto& x = donors_count(n.idx);`) become pointers
+    ALIAS(r"donors_count\([^;]*\)"),
+    V(r"donors\(([^,;(){}]+), ((?:[^;{}()]|\([^;{}()]*\))*?)\+\+\) = ([^;{}]+);", r"{ FSL_PRE((\2) < DON_W); donors(\1, \2++) = \3; }"),
     R(r"receivers_weight\(i, j\) /= weights_sum;", "receivers_weight(i, j) = FSL_DIVW(receivers_weight(i, j), weights_sum);", 1),
 ] + VOCAB
 
@@ -163,10 +164,13 @@ __CPROVER_ensures(i == G ==> %(ROUTED)s)
 /* frame: the rows of every other node are untouched */
 __CPROVER_ensures(i != G ==> (RCNT(G) == __CPROVER_old(RCNT(G)) && %(SAME)s))
 /* donor bookkeeping: i is appended to the row of each receiver, nothing else in the donor table changes */
-__CPROVER_ensures(CNT(GR) >= __CPROVER_old(CNT(GR)))
+/* with multiplicity (C06): one donor entry per receiver SLOT pointing at the row (a neighbour listed twice -- an axis of 2 nodes
+ * that is looped -- is a receiver twice and gets the donor twice) */
+__CPROVER_ensures(CNT(GR) == __CPROVER_old(CNT(GR)) + (TERMINAL(i) ? 0 : %(NSLOTS)s))
 __CPROVER_ensures((GS < __CPROVER_old(CNT(GR)) && GS < DON_W) ==> DON(GR, GS) == __CPROVER_old(DON(GR, GS)))
 __CPROVER_ensures((__CPROVER_old(CNT(GR)) <= GS && GS < CNT(GR) && GS < DON_W) ==> (DON(GR, GS) == i && !TERMINAL(i) && %(INREC)s))
 """ % dict(ROUTED=routed(nb, finite),
+           NSLOTS="(" + " + ".join("((%d < RCNT(i) && REC(i, %d) == GR && GR != i) ? 1 : 0)" % (k, k) for k in range(nb)) + ")",
            ROWCELLS=", ".join("REC(i, %d), DIST(i, %d), WGT(i, %d)" % (k, k, k) for k in range(nb)),
            SAME=conj("REC(G, %k) == __CPROVER_old(REC(G, %k)) && SAME_D(DIST(G, %k), __CPROVER_old(DIST(G, %k))) && SAME_D(WGT(G, %k), __CPROVER_old(WGT(G, %k)))", nb),
            INREC=disj("%k < RCNT(i) && REC(i, %k) == GR", nb)),
@@ -265,7 +269,15 @@ def groups(nb, tier="quick"):
     return gs
 
 
-GROUPS = {"C05": groups(2) + groups(4, "thorough")}
+_Q = groups(2)
+_T = groups(4, "thorough")
+for _g in _T:
+    _g.object_bits = 12
+    _g.timeout = 3600
+GROUPS = {"C05": _Q + _T,
+          # donor entries with multiplicity (C06) and the router lemma of C01 are postconditions of the same step/loop groups
+          "C06": [g for g in _Q if "structure" in g.name or ".loop." in g.name],
+          "C01": [g for g in _Q if "structure" in g.name]}
 PROPS = {
     "C05": dict(
         level="proof",
